@@ -1,3 +1,4 @@
+import Std.Data.HashSet
 import Litep2pVerif.Common.Parse
 import Litep2pVerif.Model.Conn.Accept
 /-! Line-protocol driver for the `tcploop` area: `Model/Conn/Permits.lean` against the real
@@ -17,6 +18,28 @@ open Litep2pVerif Litep2pVerif.Conn Parse
 
 inductive Policy | accept | refuse | stall | fallback
   deriving DecidableEq, Repr
+
+/-- `SubstreamOpened` / `SubstreamOpenFailure` as printed (`Oi..`, `Oo<id>..`, `X<id>`). -/
+def isAns (m : String) : Bool := m.startsWith "O" || m.startsWith "X"
+
+/-- The order in which the answers to different requests (and inbound substreams) reach a protocol within one
+operation is `FuturesUnordered`'s business and part of no property: observations are compared up to the order of the
+answers among themselves (everything else keeps its place). -/
+def canonField (v : String) : String :=
+  let items := v.splitOn ","
+  let ans := ((items.filter isAns).toArray.qsort (fun a b => a < b)).toList
+  (items.foldl (fun (acc : List String × List String) m =>
+    if isAns m then
+      match acc.2 with
+      | a :: rest => (acc.1 ++ [a], rest)
+      | [] => (acc.1 ++ [m], [])
+    else (acc.1 ++ [m], acc.2)) ([], ans)).1 |> joinWith ","
+
+def canon (o : String) : String :=
+  joinWith " " ((tokens o).map fun t =>
+    match t.splitOn "=" with
+    | [k, v] => if k.startsWith "p" then k ++ "=" ++ canonField v else t
+    | _ => t)
 
 /-- A substream opened by the remote. `proposal`: `none` = only the multistream header was sent,
 `some none` = an unknown name was proposed, `some (some (j, f))` = name `f` of protocol `j` (`f = 0`: the main
@@ -161,9 +184,10 @@ def enabledOpt (d : DState) (scripted : Bool) : List TLabel :=
       match x.inbound, x.proto with
       | false, some i =>
         -- the failure of an outbound request is reported: if the protocol is listening, the implementation's
-        -- observation says which requests failed during this operation, in which order (`scripted`)
+        -- observation says which requests failed during this operation (`scripted`; answers are compared up to
+        -- their order, so the lowest id goes first)
         if d.paused.getD i false then (if scripted then none else some (TLabel.negFail k))
-        else if scripted && (d.script.getD i []).head? == some (sidOf d k) then some (TLabel.negFail k) else none
+        else if scripted && (d.script.getD i []).min? == some (sidOf d k) then some (TLabel.negFail k) else none
       | _, _ => if scripted then none else some (TLabel.negFail k)
 
 def pushInq (inq : List (List Nat)) (p k : Nat) : List (List Nat) :=
@@ -203,7 +227,7 @@ def apply (d : DState) (l : TLabel) : DState :=
         -- the failure message is in the channel (or being sent) unless the protocol has shut down
         let sid := sidOf d k
         let xq := if protoAlive d.t i then pushInq d.xq i sid else d.xq
-        let script := if (d.script.getD i []).head? == some sid then d.script.modify i List.tail else d.script
+        let script := d.script.modify i (·.erase sid)
         { d with t := t', xq := xq, script := script }
       | _, _ => { d with t := t' }
     | none => { d with t := t' }
@@ -258,7 +282,7 @@ def key (d : DState) : String :=
     (if r.taken then "t" else "w") ++ (if r.reset then "r" else "") ++ subStr d r.sub)
   let os := joinWith ";" (d.outAns.map fun (k, p) =>
     (match p with | .accept => "a" | .refuse => "r" | .stall => "s" | .fallback => "f") ++ subStr d (some k))
-  let qs := joinWith ";" ((List.range d.n).map fun i => joinWith "," (queueLetters d i))
+  let qs := joinWith ";" ((List.range d.n).map fun i => canonField (joinWith "," (queueLetters d i)))
   let mg := (if l.ps.mgr.alive then toString l.ps.mgr.queue.length else "x") ++
     (match l.ps.call with
       | .idle => "i"
@@ -268,14 +292,15 @@ def key (d : DState) : String :=
     (match d.phase with | .parked => "P" | .notifying => "N" | .failed => "F" | .up => "U") ++
     (if d.probe then "b" else "") ++
     String.join (d.t.subs.map fun x => stageStr x.stage ++ (match x.proto with | some p => toString p | none => "_"))
-  let xs := joinWith ";" (d.xq.map fun q => joinWith "," (q.map toString))
-  let sc := joinWith ";" (d.script.map fun q => joinWith "," (q.map toString))
-  let fb := joinWith "," (d.fbOf.map fun (k, f) => s!"{k}:{f}")
+  let srt := fun (q : List Nat) => (q.toArray.qsort (fun a b => a < b)).toList
+  let xs := joinWith ";" (d.xq.map fun q => joinWith "," ((srt q).map toString))
+  let sc := joinWith ";" (d.script.map fun q => joinWith "," ((srt q).map toString))
+  let fb := joinWith "," (((d.fbOf.map fun (k, f) => k * 4 + f).toArray.qsort (fun a b => a < b)).toList.map toString)
   ex ++ co ++ s!"|{d.t.accepted}|" ++ hs ++ "|" ++ cq ++ "|" ++ rs ++ "|" ++ os ++ "|" ++ qs ++ "|" ++ mg ++
     (if l.ps.closedReported then "|R" else "|") ++ "|" ++ xs ++ "|" ++ sc ++ "|" ++ fb
 
 /-- Every state (up to `key`) reachable by firing enabled transitions until none is enabled. -/
-partial def exploreK (work : List DState) (seen : List String) (finals : List DState) : List DState :=
+partial def exploreK (work : List DState) (seen : Std.HashSet String) (finals : List DState) : List DState :=
   match work with
   | [] => finals
   | d :: rest =>
@@ -285,15 +310,15 @@ partial def exploreK (work : List DState) (seen : List String) (finals : List DS
     match evs with
     | e :: _ =>
       -- only invisible, commuting transitions are enabled: one order is enough (timeouts can wait, they commute too)
-      if evs.all (internal d) then exploreK (apply d e :: rest) (k :: seen) finals
-      else exploreK ((evs ++ enabledOpt d true ++ enabledOpt d false).map (apply d) ++ rest) (k :: seen) finals
+      if evs.all (internal d) then exploreK (apply d e :: rest) (seen.insert k) finals
+      else exploreK ((evs ++ enabledOpt d true ++ enabledOpt d false).map (apply d) ++ rest) (seen.insert k) finals
     | [] =>
       let scr := enabledOpt d true
       -- a failure the implementation reported during this operation is still to come: not the end of the operation
-      if !scr.isEmpty then exploreK ((scr ++ enabledOpt d false).map (apply d) ++ rest) (k :: seen) finals
-      else exploreK ((enabledOpt d false).map (apply d) ++ rest) (k :: seen) (finals ++ [d])
+      if !scr.isEmpty then exploreK ((scr ++ enabledOpt d false).map (apply d) ++ rest) (seen.insert k) finals
+      else exploreK ((enabledOpt d false).map (apply d) ++ rest) (seen.insert k) (finals ++ [d])
 
-def explore (work : List DState) (_seen _finals : List DState) : List DState := exploreK work [] []
+def explore (work : List DState) (_seen _finals : List DState) : List DState := exploreK work {} []
 
 /-! ### draining and the observation -/
 
@@ -599,14 +624,15 @@ def opOn (d : DState) (ts : List String) : Option (DState × String) :=
   | _ => none
 
 def dedup (l : List DState) : List DState :=
-  (l.foldl (fun (acc : List DState × List String) d =>
+  (l.foldl (fun (acc : Array DState × Std.HashSet String) d =>
     let k := key d
-    if acc.2.contains k then acc else (acc.1 ++ [d], k :: acc.2)) ([], [])).1
+    if acc.2.contains k then acc else (acc.1.push d, acc.2.insert k)) (#[], {})).1.toList
 
 /-- Keep the candidates whose observation is the implementation's; if there is none, answer with the first
 candidate's observation (a disagreement) and go on with all of them. -/
 def choose (outs : List (DState × String)) (impl : String) : State × String :=
-  let hit := outs.filter fun x => x.2 = impl
+  let ci := canon impl
+  let hit := outs.filter fun x => canon x.2 = ci
   if !hit.isEmpty then ({ ds := dedup (hit.map (·.1)) }, impl)
   else match outs.head? with
     | some (_, o) => ({ ds := dedup (outs.map (·.1)) }, o)
